@@ -12,6 +12,12 @@ ENGINES = [
      'kind_free_text': 'preemption-bounded controlled scheduler over compiler-inserted load/store hooks with conflict (race) monitor'},
 ]
 TEXT = {
+    'C18': {
+        'level': 'Bounded-exhaustive: every array of <=3 (quick) / <=4 (thorough, 24 M arrays) objects drawn from 7 grouping values of different kinds with colliding texts (1, \"1\", 2, 2.5, true, null, \"x\") x 10 object shapes (key at every position, extra members of every kind, a removed member before/after the key, a member reset to undefined, the other member removed, key only). GroupBy and <loop group=> are compared with a reference partition (first-appearance order, members in input order minus the key); the source array must be unchanged and a dirty destination replaced.',
+        'design_ref': 'DESIGN.md §5 C18',
+        'note': 'Every generated object contains the grouping key (property scope).',
+        'technique': 'bounded-exhaustive input enumeration on the implementation with reference partition',
+    },
     'C12': {
         'level': 'Explicit-state breadth-first search over histories of ~215 operations on two Value registers plus a pointee: 54 actions (every assignment overload, every += overload, Merge copy/move, Remove x3, RemoveIndex, Reset, Compress, Sort, Get, Insert, four [] overloads, pointer-to-value) applied at the root and at child paths reached through the creating accessors, 17 constructors executed in 0xAB-filled storage, partner operations on the second register. After every transition both registers and the pointee are compared node by node with an abstract document model through the whole public read API (kinds, sizes, lookups by index/key/StringView, keys, strings, all numeric/boolean coercions, iteration order, Stringify). Depth 3 (quick) / 4 (thorough, state cap reported).',
         'design_ref': 'DESIGN.md §5 C12',
